@@ -473,7 +473,7 @@ func TestC06(t *testing.T) {
 	// (2) amplification
 	sizes := []uint64{1000, 1 << 20, 1 << 31, 1 << 40, 1<<60 + 1}
 	if rec.Thorough() {
-		sizes = []uint64{1000, 65536, 1 << 20, 1 << 26, 1 << 31, 1 << 32, 1 << 40, 1<<62 + 1}
+		sizes = []uint64{1000, 65536, 1 << 20, 1 << 31, 1 << 32, 1 << 40, 1<<62 + 1}
 	}
 	for _, tpl := range amplify {
 		for _, N := range sizes {
@@ -507,7 +507,7 @@ func TestC06(t *testing.T) {
 	ShrinkTime = "1ms"
 	prof := luagen.General
 	prof.Name, prof.Strings, prof.Closures, prof.Coroutines = "memory", 8, 8, 4
-	RunRapid(rec, "C06/programs", rec.Pick(120, 3000), 0, func(t *rapid.T) {
+	RunRapid(rec, "C06/programs", rec.Pick(120, 2000), 0, func(t *rapid.T) {
 		prog := luagen.Generate(t, prof)
 		specs := progcheck.ArgSpecs(prog.Args)
 		src, lines := mlua.Render(prog.Block, nil)
